@@ -898,6 +898,22 @@ func ruleC19CType(r *Run) {
 			okBlob = true
 		}
 	}
+	// or through the context's own SetHeader(key, value), which is Resp.Header().Set(key, value)
+	if sh := w.FnOpt("rux", "Context.SetHeader"); sh != nil && len(sh.Params) == 3 {
+		forwards := false
+		for _, c := range callsToName(sh, "(net/http.Header).Set") {
+			a := c.Common().Args
+			if a[1] == ssa.Value(sh.Params[1]) && a[2] == ssa.Value(sh.Params[2]) {
+				forwards = true
+			}
+		}
+		for _, c := range callsToFn(blob, sh) {
+			k, _ := constString(c.Common().Args[1])
+			if forwards && k == "Content-Type" && c.Common().Args[2] == ssa.Value(blob.Params[2]) {
+				okBlob = true
+			}
+		}
+	}
 	r.Check(rule, "(*Context).Blob:header", blob.Pos(), okBlob, "Blob sets Content-Type to its contentType argument")
 	// renderer-based helpers: helper -> renderer type -> constant in Render
 	rt := []struct{ helper, renderer, constName string }{{"JSON", "JSONRenderer", "JSON"}, {"JSONP", "JSONPRenderer", "JSONP"}, {"XML", "XMLRenderer", "XML"}}
